@@ -51,6 +51,16 @@ fn main() {
             });
             sweep::exhaust(&mut out, "exhaustive", &c, limit).expect("write");
         }
+        "shrink" => {
+            let prefix = args.get(2).cloned().unwrap_or_default();
+            let budget: usize = args.get(3).and_then(|s| s.parse().ok()).unwrap_or(300);
+            let line = args[4..].join(" ");
+            let c = case::Case::dec(&line).unwrap_or_else(|| {
+                eprintln!("HARNESS-ERROR cannot parse case: {}", line);
+                std::process::exit(3)
+            });
+            sweep::shrink(&mut out, &c, &prefix, budget).expect("write");
+        }
         "neighbors" => {
             let seed: u64 = args.get(2).and_then(|s| s.parse().ok()).unwrap_or(1);
             let count: usize = args.get(3).and_then(|s| s.parse().ok()).unwrap_or(200);
